@@ -44,8 +44,16 @@ def seed():
         return 1
 
 
+import itertools  # noqa: E402
+import threading  # noqa: E402
+_scratch_counter = itertools.count()
+_scratch_lock = threading.Lock()
+
+
 def scratch(name):
-    d = os.path.join(SCRATCH_ROOT, "%s.%d" % (name, os.getpid()))
+    with _scratch_lock:
+        k = next(_scratch_counter)
+    d = os.path.join(SCRATCH_ROOT, "%s.%d.%d" % (name, os.getpid(), k))
     shutil.rmtree(d, ignore_errors=True)
     os.makedirs(d)
     return d
